@@ -137,25 +137,57 @@ fn parse_quoted_term_name(s: &str) -> Result<(String, &str)> {
         fail!("Missing start quote");
     };
 
-    let mut quoted = false;
-    let Some((end, quote)) = s.char_indices().find(|(_, c)| {
-        if quoted {
-            quoted = false;
-            true
-        } else if *c == '\\' {
-            quoted = true;
-            true
-        } else {
-            *c == '"'
+    // the inverse of the `{:?}` formatting used to write quoted strings: the name ends at the first
+    // unescaped quote, escape sequences are replaced by the characters they stand for
+    let mut ident = String::new();
+    let mut chars = s.char_indices();
+    while let Some((pos, c)) = chars.next() {
+        match c {
+            '"' => return Ok((ident, &s[pos + c.len_utf8()..])),
+            '\\' => ident.push(parse_escape_sequence(&mut chars)?),
+            c => ident.push(c),
         }
-    }) else {
-        fail!("Missing end quote");
-    };
+    }
+    fail!("Missing end quote");
+}
 
-    let ident = s[..end].to_owned();
-    let s = &s[end + quote.len_utf8()..];
-
-    Ok((ident, s))
+/// Parse the remainder of an escape sequence as written by `{:?}` after the backslash
+fn parse_escape_sequence(chars: &mut std::str::CharIndices<'_>) -> Result<char> {
+    let mut next = || chars.next().map(|(_, c)| c);
+    match next() {
+        Some('0') => Ok('\0'),
+        Some('t') => Ok('\t'),
+        Some('r') => Ok('\r'),
+        Some('n') => Ok('\n'),
+        Some('\\') => Ok('\\'),
+        Some('"') => Ok('"'),
+        Some('\'') => Ok('\''),
+        Some('u') => {
+            if next() != Some('{') {
+                fail!("Invalid unicode escape in quoted string");
+            }
+            let mut code: u32 = 0;
+            let mut num_digits = 0;
+            loop {
+                match next() {
+                    Some('}') if num_digits > 0 => break,
+                    Some(c) if num_digits < 6 => {
+                        let Some(digit) = c.to_digit(16) else {
+                            fail!("Invalid unicode escape in quoted string");
+                        };
+                        code = code * 16 + digit;
+                        num_digits += 1;
+                    }
+                    _ => fail!("Invalid unicode escape in quoted string"),
+                }
+            }
+            match char::from_u32(code) {
+                Some(c) => Ok(c),
+                None => fail!("Invalid unicode escape in quoted string"),
+            }
+        }
+        _ => fail!("Invalid escape sequence in quoted string"),
+    }
 }
 
 fn parse_ident_term_name(s: &str) -> Result<(String, &str)> {
